@@ -10,7 +10,7 @@ RULE = ('random state trees with dense initial transitions (to any strict descen
         'distinct_nontrivial = distinct '
         '(depth of start state, number of entries, number of inits) tuples')
 CASES = {'quick': 12000, 'thorough': 300000}
-BUDGET = {'quick': 40, 'thorough': 300}
+BUDGET = {'quick': 150, 'thorough': 300}
 REQUIRE = {'starts': 5000, 'deep_init_chains': 20, 'deep_starts': 100, 'restarts_of_a_started_chart': 2000}
 ASSUME = ['generated charts are well-formed (inits target strict descendants)']
 
